@@ -75,6 +75,11 @@ MUTANTS = [
     # the repaired while test (5f7ee5c)
     ('C01', 'supp/nast.py', r"test_start\.loop\(body\)", "body_start.loop(body)", 'C01-R5'),
     ('C01', 'supp/nast.py', r"self\.make_flow\('while-else', \[test\]\)", "self.make_flow('while-else', [cur])", 'C01-R5'),
+    # the repaired short circuit (e81a976)
+    ('C01', 'supp/nast.py', r"self\.make_flow\('boolop', \[exits\[-1\]\]\)", "self.make_flow('boolop', [exits[0]])", 'C01-R5'),
+    ('C03', 'supp/nast.py', r"self\.flow = self\.make_flow\('join', exits\)", "self.flow = self.make_flow('join', exits[-1:])", 'C03-R1'),
+    ('C03', 'supp/nast.py', r"                return evaluated, self\.flow", "                return self.flow, self.flow", 'C03-R1'),
+    ('C03', 'supp/nast.py', r"            return self\.flow, evaluated", "            return evaluated, self.flow", 'C03-R1'),
     ('C04', 'supp/evaluator.py', r"names = node\.flow\.names_at\(np\(node\)\)\n            name = names\.get\(node\.id\)", "names = node.flow.names\n            name = names.get(node.id)", 'C04-R3'),
     ('C04', 'supp/scope.py', r"    @property\n    def names\(self\):\n        # type: \(\) -> t\.Mapping\[str, Name \| MultiName\]\n        return MergedDict\(self\.flow\.names, self\._global_names\)", "    @cached_property\n    def names(self):\n        # type: () -> t.Mapping[str, Name | MultiName]\n        return MergedDict(self.flow.names, self._global_names)", 'C04-R1'),
     ('C04', 'supp/evaluator.py', r"        self\.nodes = set\(\)  # type: set\[t\.Hashable\]", "        self.nodes = set()  # type: set[t.Hashable]\n        self.position = None", 'C04-R4'),
